@@ -124,7 +124,11 @@ def check_a(ck, repo):
         cmps = _threshold_comparisons(repo, fi)
         if not cmps:
             if m in SITES:
-                ck.violated("C10.a", fi, f"{m}: routing predicate", f"{m} no longer compares the probability with self.threshold: rows are routed by another rule than at the other sites")
+                other = [n_ for n_ in ast.walk(fi.node) if isinstance(n_, ast.Attribute) and n_.attr == "threshold" and src_of(n_.value) != "self"]
+                if other:
+                    ck.unknown("C10.a", fi, f"{m}: routing predicate", f"{m} compares with {src_of(other[0])}, the threshold of another object than self: the traversal is not the recursion over self.above / self.below this rule reads")
+                else:
+                    ck.violated("C10.a", fi, f"{m}: routing predicate", f"{m} no longer compares the probability with self.threshold: rows are routed by another rule than at the other sites")
             continue
         sides: Dict[str, str] = {}
         for node, t in cmps:
@@ -145,6 +149,9 @@ def check_a(ck, repo):
     for m in ("predict_proba", "decision_path"):
         fi = ci.methods[m]
         rec = calls(fi, lambda c: isinstance(c.func, ast.Attribute) and c.func.attr == m and src_of(c.func.value) in ("self.above", "self.below"))
+        if not rec and not calls(fi, lambda c: isinstance(c.func, ast.Attribute) and c.func.attr == m and not src_of(c.func.value).endswith("estimator")):
+            ck.unknown("C10.a", fi, f"{m}: 0 recursive calls", f"{m} does not call itself on a child: the traversal is not the recursion this rule reads (an explicit stack or a loop over the nodes is another algorithm for the same walk)")
+            continue
         ck.verdict(sorted(src_of(c.func.value) for c in rec) == ["self.above", "self.below"], "C10.a", fi, f"{m}: {len(rec)} recursive calls", "one recursive call per child", f"{m} does not recurse exactly once into each of self.above and self.below")
         for c in rec:
             side = src_of(c.func.value).split(".")[1]
@@ -166,7 +173,10 @@ def check_b(ck, repo):
     pp, dp = ci.methods["predict_proba"], ci.methods["decision_path"]
     n = check_scatter(ck, "C10.b", repo, pp)
     n += check_coindex(ck, "C10.b", repo, dp, methods={"decision_path"}, min_args=2)
-    if n < 4:
+    recursive = all(calls(f_, lambda c, m_=f_.name: isinstance(c.func, ast.Attribute) and c.func.attr == m_ and not src_of(c.func.value).endswith("estimator")) for f_ in (pp, dp))
+    if n < 4 and not recursive:
+        ck.unknown("C10.b", pp, "prob[mask] = child.predict_proba(X[mask]) / child.decision_path(X[mask], mat, indices[mask])", f"only {n} of the 4 gather/scatter pairs were found and a traversal is not recursive any more: shape not read by this rule")
+    elif n < 4:
         ck.violated("C10.b", pp, "prob[mask] = child.predict_proba(X[mask]) / child.decision_path(X[mask], mat, indices[mask])", f"only {n} of the 4 gather/scatter pairs of the traversals were found")
     ex = expander(repo)
     p_mat, p_ids = dp.named_params[2], dp.named_params[3]
